@@ -10,6 +10,8 @@ factors (p < p_b).
 
 from __future__ import annotations
 
+import warnings
+
 import numpy as np
 
 from vf import instrument, workloads as wl
@@ -272,6 +274,27 @@ def run_case(ck, desc):
                 rs2 = float(oil.solution_gor_Standing(T, p, api, gg, gor))
                 want2 = (bg2 - float(oil.db_o_dgor_Standing(T, api, gg, rs2))) * float(oil.dgor_dpressure_Standing(T, p, api, gg, gor)) / float(oil.b_o_bubblepoint_Standing(T, api, gg, gor))
                 _cmp(ck, "co==(Bg-dBo/dRs)*dRs/dp/Bob (caller's standard conditions)", c2, want2, desc, {"p": p, "standard_conditions": [Tstd, pstd]}, tol=1e-11)
+                # the two optional conditions in every calling convention: one of them only, positionally or by
+                # name, the other left at (or explicitly given as) its default
+                import inspect as _insp
+
+                prm_ = _insp.signature(oil.oil_compressibility_Standing).parameters
+                n7, n8 = ("temperature_standard", "pressure_standard") if {"temperature_standard", "pressure_standard"} <= set(prm_) else list(prm_)[7:9]
+                d7, d8 = prm_[n7].default, prm_[n8].default
+                for label_, a_, kw_, cond_ in (
+                    ("first condition positionally, second omitted", (Tstd,), {}, (Tstd, d8)),
+                    ("first positionally, second by name", (Tstd,), {n8: pstd}, (Tstd, pstd)),
+                    ("both by name", (), {n7: Tstd, n8: pstd}, (Tstd, pstd)),
+                    ("second by name only", (), {n8: pstd}, (d7, pstd)),
+                    ("first by name only", (), {n7: Tstd}, (Tstd, d8)),
+                ):
+                    with warnings.catch_warnings():
+                        warnings.simplefilter("ignore")
+                        c3 = float(oil.oil_compressibility_Standing(T, p, api, gg, gor, Tpc, ppc, *a_, **kw_))
+                    bg3 = float(gas.b_factor_DAK(T, p, Tpc, ppc, *cond_))
+                    want3 = (bg3 - float(oil.db_o_dgor_Standing(T, api, gg, rs2))) * float(oil.dgor_dpressure_Standing(T, p, api, gg, gor)) / float(oil.b_o_bubblepoint_Standing(T, api, gg, gor))
+                    _cmp(ck, "co==(Bg-dBo/dRs)*dRs/dp/Bob (standard conditions in every calling convention)", c3, want3, desc, {"p": p, "call": label_, "standard_conditions": list(cond_)}, tol=1e-11)
+                ck.count("calling_conventions_for_the_standard_conditions", 5)
     # (e') at and above the bubble point the oil is one phase: the gas arguments (pseudocritical point,
     #      standard conditions) are whatever the caller has for a fluid without free gas - None, nan, 0.0 - and
     #      the answer is still exactly the undersaturated correlation
